@@ -162,7 +162,9 @@ pub fn run(a: &Args) {
     // chunk buffers larger than 32 KiB with more than 32 KiB of compressed data (noise does not compress)
     for size in [40_000usize, 65_536, 1 << 20] {
         let cfg = WCfg { w: 300, h: if thorough { 300 } else { 180 }, color: 0, depth: 8, animated: None, sep: false, compression: *rng.pick(&[3u8, 8, 14]), filter: 0, validate: false, palette: None };
+        crate::util::NOISE_ONLY.with(|c| c.set(true));
         one(&mut o, &mut rng, &cfg, Some(size), vec![5000], 0, false);
+        crate::util::NOISE_ONLY.with(|c| c.set(false));
         o.count("large-chunk-buffers");
     }
     o.mark("done");
